@@ -118,6 +118,21 @@ impl<'a> Interpreter<'a> {
         }
     }
 
+    /// Interpreter for code evaluated on behalf of this one (a macro body)
+    /// with its own context and bindings. It continues this interpreter's call
+    /// depth, so that recursion through macro bodies is bounded as well.
+    pub fn child<'b>(
+        &self,
+        cel: &'b CelContext,
+        bindings: &'b BindContext<'b>,
+    ) -> Interpreter<'b> {
+        Interpreter {
+            cel: Some(cel),
+            bindings: Some(bindings),
+            depth: ScopedCounter::starting_at(self.depth.count()),
+        }
+    }
+
     pub fn add_bindings(&mut self, bindings: &'a BindContext) {
         self.bindings = Some(bindings);
     }
